@@ -14,7 +14,7 @@
    MemoWitness.v. *)
 From Coq Require Import ZArith List Bool Arith String.
 From BPGen Require Import GenMemo.
-From BP Require Import Memo MemoProofs MemoRules MemoWitness.
+From BP Require Import Memo MemoProofs MemoRules MemoWitness MemoCase.
 Import ListNotations.
 Open Scope Z_scope.
 
@@ -161,6 +161,14 @@ Example C18_nonvacuous :
   existsb (aux_eqb ARefused) (run_aux h_ex) = true /\
   List.length h_ex = 29%nat.
 Proof. vm_compute. repeat split; reflexivity. Qed.
+
+(* the evaluator used for the correspondence with the real decorators accepts the model's own run
+   of that history and rejects a stale answer *)
+Example C18_case_evaluator :
+  memo_case h_ex (crun F_test always_test real_cond real_pin D_case c0 h_ex)
+            (live_addrs (cfinal F_test always_test real_cond real_pin D_case c0 h_ex)) = 0 /\
+  memo_case h_undisciplined (crun F_test always_test real_cond real_pin D_case c0 h_undisciplined) [100; 200] = 32.
+Proof. vm_compute. split; reflexivity. Qed.
 
 Example C18_interleaving_nonvacuous :
   separated P_ex th_ex = true /\
